@@ -32,6 +32,7 @@ import (
 	"testing"
 	"time"
 
+	log "github.com/hashicorp/go-hclog"
 	kit "github.com/openbao/openbao/sdk/v2/helper/verifkit"
 	"github.com/openbao/openbao/sdk/v2/logical"
 	"github.com/openbao/openbao/sdk/v2/physical"
@@ -138,6 +139,31 @@ func (l *c10HALock) Lock(stopCh <-chan struct{}) (<-chan struct{}, error) {
 	return ch, err
 }
 
+// c10HookLogger passes everything on to the wrapped logger and calls hook for every Info message.
+// The harness uses it for ONE thing: SealManager.RotateBarrierKey issues its two barrier calls
+// (Rotate, then CreateUpgrade) with nothing but a log line in between, and that log line is the only
+// place where a scheduling point between the two calls can be put. No verdict looks at log text.
+type c10HookLogger struct {
+	log.Logger
+	hook func(msg string)
+}
+
+func (l *c10HookLogger) Info(msg string, args ...interface{}) {
+	l.hook(msg)
+	l.Logger.Info(msg, args...)
+}
+func (l *c10HookLogger) Named(name string) log.Logger {
+	return &c10HookLogger{Logger: l.Logger.Named(name), hook: l.hook}
+}
+func (l *c10HookLogger) ResetNamed(name string) log.Logger {
+	return &c10HookLogger{Logger: l.Logger.ResetNamed(name), hook: l.hook}
+}
+func (l *c10HookLogger) With(args ...interface{}) log.Logger {
+	return &c10HookLogger{Logger: l.Logger.With(args...), hook: l.hook}
+}
+
+const c10HABetween = "c10-sched/between-rotate-and-create-upgrade"
+
 // c10KRSnap is the key material of one barrier as the exported accessors show it.
 type c10KRSnap struct {
 	Sealed bool
@@ -213,6 +239,9 @@ type c10HA struct {
 
 	store *c10HAStore
 	probe *kit.Probe
+	// between: while set, a request that has just rotated an encryption key issues a (gated) read
+	// before it writes the upgrade entry
+	between atomic.Bool
 	haPhy physical.HABackend
 
 	nodes  []*c10HANode
@@ -278,7 +307,11 @@ func (h *c10HA) sby() *c10HANode {
 }
 
 func (h *c10HA) newNode(name, addr string, ha bool) *c10HANode {
-	conf := testCoreConfig(&vT{h.t}, h.store, vLogger())
+	conf := testCoreConfig(&vT{h.t}, h.store, &c10HookLogger{Logger: vLogger(), hook: func(msg string) {
+		if msg == "installed new encryption key" && h.between.Load() {
+			_, _ = h.store.Get(context.Background(), c10HABetween)
+		}
+	}})
 	n := &c10HANode{name: name}
 	if ha {
 		conf.HAPhysical = &c10HALocks{HABackend: h.haPhy, acquired: &n.acquired}
@@ -631,6 +664,108 @@ func (h *c10HA) awaitStandbyTerm(scope string) bool {
 		h.giveUp("standby %s did not install term %d of the %s barrier within the bound", s.name, want, scope)
 	}
 	return ok
+}
+
+// overlappingRotations issues n sys/rotate/keyring requests in the scope at once under the storage
+// gate. Every request is parked between its Rotate and its CreateUpgrade (and before the write of
+// its upgrade entry), so all rotations have completed before the first upgrade entry is written;
+// the entries are then written in the given order. Afterwards each upgrade entry must hold exactly
+// the key of the term it leads to, and the standby (which holds the barrier unsealed and gets the
+// notices) must end with a keyring identical to the active node's and read everything.
+func (h *c10HA) overlappingRotations(a *c10HANode, scope string, n int, reverse bool) {
+	nsHdr := ""
+	if scope != "root" {
+		nsHdr = scope
+	}
+	term0 := h.keys(scope).term
+	errs := make([]string, n)
+	var reqs []kit.Req
+	var tags []string
+	for i := 0; i < n; i++ {
+		i := i
+		tag := fmt.Sprintf("rotate%d", i)
+		tags = append(tags, tag)
+		reqs = append(reqs, kit.Req{Tag: tag, Fn: func() {
+			resp, err := a.v.Do(vReq{Op: logical.UpdateOperation, Path: "sys/rotate/keyring", Token: h.rootToken, NS: nsHdr})
+			if !vOK(resp, err) {
+				errs[i] = vErrStr(resp, err)
+			}
+		}})
+	}
+	var script []string
+	if reverse {
+		for i := n - 1; i >= 0; i-- {
+			script = append(script, tags[i])
+		}
+	}
+	h.between.Store(true)
+	sched := h.probe.RunGated(reqs, kit.Script{Choices: script}, kit.GateOpts{Grace: 300 * time.Millisecond, Hard: 30 * time.Second, Filter: func(ev kit.Event) bool {
+		return (ev.Op == "get" && ev.Key == c10HABetween) || (ev.Op == "put" && strings.Contains(ev.Key, barrier.KeyringUpgradePrefix))
+	}})
+	h.between.Store(false)
+	h.step("rotate-keyring", "node %s: %d overlapping sys/rotate/keyring requests in %s under the gate: %s -> %v", a.name, n, scope, sched.String(), errs)
+	if sched.TimedOut {
+		h.giveUp("gate watchdog expired during overlapping rotations")
+		return
+	}
+	for i, e := range errs {
+		if e != "" {
+			h.viol("C10-key-op-failed", "overlapping sys/rotate/keyring request %d of %d in %s: %s", i, n, scope, e)
+			return
+		}
+	}
+	h.keys(scope).term += n
+	h.keyOps++
+	h.r.Count("keyring_rotations", n)
+	h.r.Count("overlapping_rotation_batches", 1)
+	h.r.Count("overlapping_rotation_batches:"+map[bool]string{true: "root", false: "namespace"}[scope == "root"], 1)
+	// every request was parked between its Rotate and its CreateUpgrade when the first one was let go on
+	if len(sched.Steps) > 0 && sched.Steps[0].Key == c10HABetween && len(sched.Steps[0].Enabled) == n {
+		h.r.Count("overlapping_rotation_batches_all_rotations_before_the_first_upgrade_entry", 1)
+	}
+	b := h.barrierOn(a, scope)
+	akr, err := b.Keyring()
+	if err != nil || int(akr.ActiveTerm()) != h.keys(scope).term {
+		h.viol(c10HAKeyringDiff, "after %d acknowledged overlapping rotations in %s the active node's term is not %d (%v)", n, scope, h.keys(scope).term, err)
+		return
+	}
+	_, prefix := h.storageOn(a, scope)
+	for t := term0 + 1; t <= term0+n; t++ {
+		path := fmt.Sprintf("%s%s%d", prefix, barrier.KeyringUpgradePrefix, t-1)
+		pe, _ := h.probe.Inner().Get(c10Root, path)
+		var key *barrier.Key
+		if pe != nil {
+			if plain, derr := b.Decrypt(c10Root, path, pe.Value); derr == nil {
+				key, _ = barrier.DeserializeKey(plain)
+			}
+		}
+		want := akr.TermKey(uint32(t))
+		if key == nil || want == nil || int(key.Term) != t || !bytes.Equal(key.Value, want.Value) {
+			kt := -1
+			if key != nil {
+				kt = int(key.Term)
+			}
+			h.viol("C10-upgrade-entry-holds-another-terms-key", "after %d overlapping sys/rotate/keyring requests in %s (terms %d..%d) the upgrade entry %s, the step from term %d to term %d, holds the key of term %d; schedule %s", n, scope, term0+1, term0+n, path, t-1, t, kt, sched.String())
+			return
+		}
+		h.r.Count("upgrade_entries_compared_with_the_term_key", 1)
+	}
+	// the standby follows by the notices of the upgrade entries
+	if s := h.sby(); s != nil && !s.v.Core.Sealed() && (scope == "root" || h.standbyNS[scope]) {
+		if !h.awaitStandbyTerm(scope) {
+			return
+		}
+		got, want := c10SnapBarrier(h.barrierOn(s, scope)), c10SnapBarrier(b)
+		if d := got.termsDiff(want); d != "" {
+			h.viol("C10-ha-standby-keyring-differs-after-upgrade-path", "standby %s followed the upgrade entries of %d overlapping rotations in %s and its keyring differs from the active node's: %s (standby %s, active %s)", s.name, n, scope, d, got, want)
+			return
+		}
+		h.r.Count("standby_keyrings_identical_after_overlapping_rotations", 1)
+	}
+	h.write(a, scope)
+	if !h.failed {
+		h.standbyRawReads(scope, "after it followed the upgrade entries of overlapping rotations")
+	}
 }
 
 // rotateRoot = sys/rotate/root in the scope's namespace (new root key, same shares).
@@ -1236,6 +1371,11 @@ func c10HAMatrix() []c10HACase {
 		// the standby serves reads while the notice of a rotation is late, then the notice arrives
 		c10HACase{op: "rotate-keyring-read-behind", scope: "ns", sync: "before", failover: "seal", persist: "rotate-keyring"},
 		c10HACase{op: "rotate-keyring-read-behind", scope: "root", sync: "before", failover: "seal", persist: "rotation-config"},
+		// two or three sys/rotate/keyring requests at once: every rotation completes before the first upgrade entry is written
+		c10HACase{op: "overlapping-rotate-2", scope: "ns", sync: "before", failover: "seal", persist: "rotate-keyring"},
+		c10HACase{op: "overlapping-rotate-3", scope: "ns", sync: "before", failover: "seal", persist: "rotation-config"},
+		c10HACase{op: "overlapping-rotate-2", scope: "root", sync: "before", failover: "seal", persist: "rotate-keyring"},
+		c10HACase{op: "overlapping-rotate-3", scope: "root", sync: "before", failover: "seal", persist: "rotate-keyring"},
 		// the operator seals a namespace on the active node
 		c10HACase{op: "seal-ns", scope: "ns", sync: "before", failover: "seal", persist: "rotate-keyring"},
 		c10HACase{op: "seal-ns", scope: "ns", sync: "before", failover: "seal", persist: "rotate-keyring", lag: true},
@@ -1300,6 +1440,13 @@ func (h *c10HA) runCase(c c10HACase) {
 		h.sealNS(a, scope)
 	case "rotate-keyring-read-behind":
 		err = h.rotateReadBehind(a, scope)
+	case "overlapping-rotate-2":
+		h.overlappingRotations(a, scope, 2, false)
+	case "overlapping-rotate-3":
+		h.overlappingRotations(a, scope, 3, true)
+	}
+	if h.failed {
+		return
 	}
 	if err != nil {
 		h.viol("C10-key-op-failed", "%s in %s on the active node: %v", c.op, scope, err)
@@ -1620,6 +1767,9 @@ func TestVerif_C10_HAPair(t *testing.T) {
 	r.Require("entries_read_back", 800/div)
 	r.Require("standby_reads_while_behind_failed_legitimately", 2/div)
 	r.Require("standby_rereads_after_late_upgrade_notice", 2/div)
+	r.Require("overlapping_rotation_batches_all_rotations_before_the_first_upgrade_entry", 4/div)
+	r.Require("upgrade_entries_compared_with_the_term_key", 8/div)
+	r.Require("standby_keyrings_identical_after_overlapping_rotations", 4/div)
 }
 
 
